@@ -1,0 +1,46 @@
+//go:build verif
+
+package service
+
+import (
+	"net"
+	"sync/atomic"
+)
+
+// Hooks for runtime verification. They exist only in builds with the `verif` tag.
+
+var verifPacketConnWrapper atomic.Pointer[func(net.PacketConn) net.PacketConn]
+var verifPointHook atomic.Pointer[func(name string)]
+
+// VerifSetPacketConnWrapper installs a wrapper applied to every outbound (NAT)
+// UDP socket the packet handler creates. Pass nil to remove it.
+func VerifSetPacketConnWrapper(f func(net.PacketConn) net.PacketConn) {
+	if f == nil {
+		verifPacketConnWrapper.Store(nil)
+		return
+	}
+	verifPacketConnWrapper.Store(&f)
+}
+
+// VerifSetPointHook installs a callback invoked at named scheduling points.
+// Pass nil to remove it.
+func VerifSetPointHook(f func(name string)) {
+	if f == nil {
+		verifPointHook.Store(nil)
+		return
+	}
+	verifPointHook.Store(&f)
+}
+
+func verifWrapPacketConn(pc net.PacketConn) net.PacketConn {
+	if f := verifPacketConnWrapper.Load(); f != nil {
+		return (*f)(pc)
+	}
+	return pc
+}
+
+func verifPoint(name string) {
+	if f := verifPointHook.Load(); f != nil {
+		(*f)(name)
+	}
+}
